@@ -79,9 +79,19 @@ func (p *Parser) parseMRQuantified() (*types.PatternNode, error) {
 	return &types.PatternNode{Kind: types.PatternRepetition, Children: []*types.PatternNode{atom}, Quant: q}, nil
 }
 
+// maxMRPatternDepth bounds the nesting of groups inside a MATCH_RECOGNIZE PATTERN.
+const maxMRPatternDepth = 256
+
 // parseMRAtom: 模式变量 | ( 交替 ) | PERMUTE(...) | {- 排除 -}
 // 模式变量可为任意标识符，含被词法器归为关键字的词（如 End/When），故按"值以字母开头"识别。
 func (p *Parser) parseMRAtom() (*types.PatternNode, error) {
+	// Groups, PERMUTE(...) and exclusions nest through this function; bound the depth so a
+	// hostile PATTERN cannot exhaust the goroutine stack (a fatal, unrecoverable error).
+	p.mrDepth++
+	defer func() { p.mrDepth-- }()
+	if p.mrDepth > maxMRPatternDepth {
+		return nil, fmt.Errorf("PATTERN nesting exceeds %d levels", maxMRPatternDepth)
+	}
 	t := p.peekToken()
 	switch t.Type {
 	case TokenLParen:
